@@ -5,7 +5,7 @@ TIE = "correspondence check: Go harness (bin/vh, built -tags verif from /repo's 
 
 PROPS = {
     "C01": dict(
-        rule="value trees: all trees with <=3 nodes over payload alphabet {a,CR,LF,$} (payload length <=1 quick / <=2 thorough) "
+        rule="round 2: enclen - the real serializer on a bulk string of every length 0..4200 (thorough 0..70000) and windows of +-3 around every 10^k, 2*10^k, 5*10^k, 2^k>=4096, k*1000 (up to 2^20 / 2^24), alone and as an array element, length-prefix law checked and digests of all serializations compared with the model's enc; value trees: all trees with <=3 nodes over payload alphabet {a,CR,LF,$} (payload length <=1 quick / <=2 thorough) "
              "plus PRNG-generated trees (depth<=6, arity<=40, payload classes: empty, all 256 bytes, CR/LF/NUL, forged frames, type bytes, digits, 64KiB) "
              "built through the public constructors, wide arrays (255..4097 elements, 65536 thorough) and large bulk payloads (511 B..64 KiB, 1 MiB thorough) also nested, plus constructor cases on boundary and random ints/floats; "
              "non-trivial = in the property's domain (no CR/LF in line payloads) with >=1 payload byte or >=2 nodes; distinct = distinct case line",
@@ -43,31 +43,31 @@ SERVE_AS = ["transport contract of C02", "command and option names in generated 
             "EXPIRE ttl within +-10^8 s and EXPIREAT timestamps away from the current time so the double can tell them apart"]
 
 PROPS["C03"] = dict(canon="serve", timeout=1200,
-    rule="pipelines of 1..12 requests over every registered command (valid, ill-formed by C10's classes, unknown, surplus arguments, QUIT) "
+    rule="round 2: borderRequests - every pair of 15 border integers (0,+-1,+-2,2^62-1,+-2^62,-2^62-1,2^63-2,+-(2^63-1),-2^63,2^63/3,2^64/3) in every count/index/offset/limit position of 13 commands over a six-element reply, then PING and ECHO; pipelines of 1..12 requests over every registered command (valid, ill-formed by C10's classes, unknown, surplus arguments, QUIT) "
          "x handler scripts (every message type, errors) x chunkings (whole, per request, per byte, two random partitions); plus every ZADD flag combination; "
          "observables: ordered trace of handler calls and writes, replies written at each blocking point; non-trivial = every case; distinct = distinct case line",
     trusted_base=SERVE_TB, assumptions=SERVE_AS + ["handler results that make the framework dereference nil (nil message without error) end the connection; they are outside C03's domain"])
 PROPS["C04"] = dict(canon="serve", timeout=1200,
-    rule="client streams made of RESP values of every type, command names/arguments with CRLF + forged +OK/:1/$-1 frames, null/nested/empty command arrays, "
+    rule="round 2: composedShapeCases - 30 derived/reply-walking commands x 34 handler reply shapes (nothing, error, error+message, scalars, arrays with null/nested/integer/status/absent elements, odd lengths), fresh and memo reply objects, each followed by PING; bulk replies of 10^k-1,10^k,10^k+1,2^12+-1,2^16+-1 bytes with forged frames from ECHO, GET and LRANGE; client streams made of RESP values of every type, command names/arguments with CRLF + forged +OK/:1/$-1 frames, null/nested/empty command arrays, "
          "with and without a command handler, with a handler that keeps its reply objects and hands the same *Message out again, partly read (memo) x handler results of every message type incl. nil message, nil array, nil element, errors with CRLF, message+error; "
          "a reader that pauses 6..8 s inside a 20..80 KB reply with further requests pipelined (stallr, unbuffered pipe: any write timeout an implementation may have expires); plus concurrent cases (conc4): 2..6 connections on the example store with 1..16 KiB array replies (LRANGE, MGET, ZRANGE WITHSCORES), each read in 5..20-byte pieces with scheduling "
          "points in between over unbuffered pipes, every connection's bytes compared exactly with the model's replies; "
          "oracle: an independent strict RESP2 reader must split everything written into complete canonical frames; non-trivial = every case",
     trusted_base=SERVE_TB, assumptions=SERVE_AS)
 PROPS["C05"] = dict(canon="serve", timeout=1200,
-    rule="for each of the 38 single-call commands: well-formed requests from an independent grammar (all option subsets and orders, binary strings, boundary ints/floats, "
+    rule="round 2: key/value lists (MSET, MSETNX, HMSET, any letter case, 1..5 pairs, a third of the keys repeated, empty keys/values) with the oracle 'one call per key carrying the last value'; for each of the 38 single-call commands: well-formed requests from an independent grammar (all option subsets and orders, binary strings, boundary ints/floats, "
          "1..k list elements, duplicate keys, repeated options, random letter case of command and option names) with the expected handler call computed by the grammar, wide requests (list arguments of 255..5000 elements), a client that lags 2.6 s before sending EXPIRE/SETEX/SET EX (relative times are relative to the request), plus unknown commands incl. names whose Unicode upper case would spell a command; witnesses of a request that panics inside the framework while other connections are served (panicw); "
          "non-trivial = every case; distinct = distinct case line",
     trusted_base=SERVE_TB, assumptions=SERVE_AS)
 PROPS["C07"] = dict(canon="serve", timeout=1200,
-    rule="hostile streams: empty/null/nested command arrays, non-array values, mutated valid requests (C06 mutators), every command with boundary arguments, "
+    rule="round 2: extremeStoreCases - the example store behind the framework: a data set, then one command with each of 25 numbers (15 border integers, 10 counts in the window where make accepts what the runtime cannot allocate) in every count/index/offset/limit/increment position of 14 commands, empty keys/values/members, inverted ranges, then PING and two reads; composedShapeCases as in C04; hostile streams: empty/null/nested command arrays, non-array values, mutated valid requests (C06 mutators), every command with boundary arguments, "
          "disconnect at arbitrary points x wild handler results (nil message, nil array, nil elements, odd-length arrays, errors); "
          "mass-disconnect cases (massdisc: 50 and 200 clients closed at the same instant, then a witness and an empty registry); plus stalled-writer witness cases (stallw): 1..3 clients that pipeline requests and never read, over unbuffered pipes, on the double and on the example store, while witness "
          "connections opened afterwards must get exact replies; "
          "oracle: no panic escapes the connection loop, the loop returns, the registry is empty afterwards, witnesses are served",
     trusted_base=SERVE_TB, assumptions=SERVE_AS + ["process-level effects (OS limits, fatal runtime errors that are not panics) are outside the model"])
 PROPS["C10"] = dict(canon="serve", timeout=1200,
-    rule="systematic enumeration over the independent grammar: each required position omitted, each value position replaced by a null bulk, each numeric position replaced by "
+    rule="round 2: range-only ill-formed tokens ((1 (((2.5 ((-inf (( ( 1 (+ ((inf, (1 where a plain float is required, wider ill-formed integer/float pools (trailing NUL/newline, separators, 0b1 0o7 1_0, lone signs, 1L, 2^64+1, 1f, 1e+, parenthesis inside/behind the number); systematic enumeration over the independent grammar: each required position omitted, each value position replaced by a null bulk, each numeric position replaced by "
          "non-numeric/overflowing/fractional/hex/underscore tokens, each pair list cut to a dangling half, every SET exclusivity conflict and non-positive expiry, expiry values whose conversion to time.Duration wraps to zero, negative or small positive; option-bearing commands "
          "(EXPIRE, SCAN, SET, LPOP, ZADD, ZRANGE*, ZREVRANGE*) are drawn 8x per round so that every optional clause (LIMIT o c, COUNT n, MATCH p, EX n ...) occurs and its values are mutated too, "
          "LIMIT cut after its offset; each followed by PING; "
@@ -78,7 +78,7 @@ PROPS["C11"] = dict(canon="serve", timeout=1200,
          "oracle: replies = requests received completely, registry empty after return; non-trivial = every case",
     trusted_base=SERVE_TB, assumptions=SERVE_AS)
 PROPS["C20"] = dict(canon="serve", timeout=1200,
-    rule="pipelines of C03 (valid, ill-formed, unknown, QUIT, composed commands) with a recording tracer, authorized and unauthorized, end of stream at the end, at a request boundary "
+    rule="round 2: composedShapeCases (without contract-breaking shapes) under the recording tracer; pipelines of C03 (valid, ill-formed, unknown, QUIT, composed commands) with a recording tracer, authorized and unauthorized, end of stream at the end, at a request boundary "
          "and at a sampled inner offset; pipelines with non-array values, empty / null / nested arrays mixed in as requests; connections whose k-th and later writes fail (wfail=k) and streams that end with the socket closed or reset instead of EOF (rerr=closed|reset, at "
          "request boundaries); oracle: every span started once and finished once, children inside parents, one root per request; non-trivial = every case",
     trusted_base=SERVE_TB, assumptions=SERVE_AS + ["runs that end in a recovered panic leave spans open; they are C07's subject"])
@@ -100,7 +100,7 @@ PROPS["C13"] = dict(canon="sys", timeout=1200,
     trusted_base=SYS_TB, assumptions=["concurrent (unserialised) execution is exercised by C14/C16's workloads; here requests are released one at a time"])
 
 PROPS["C17"] = dict(
-    rule="complete enumeration: every pattern of length <=4 (quick) / <=5 (thorough) over {a,b,*,?,.,+,(,|,$} against every key of length <=3 / <=4 over the same alphabet "
+    rule="round 2: a third family of complete enumerations (patterns <=3 over a,*,? + three more characters, keys <=2) for eight triples of path/shell/class characters through glob.Compile and KEYS/SCAN MATCH of the populated example store; / : newline in the random alphabet; complete enumeration: every pattern of length <=4 (quick) / <=5 (thorough) over {a,b,*,?,.,+,(,|,$} against every key of length <=3 / <=4 over the same alphabet "
          "(one case = one pattern, result = bitmap over all keys); the same enumeration over the second alphabet {a,*,?,backslash,E,Q,[} (regexp quoting); random longer patterns over every regexp metacharacter with keys derived from the pattern; "
          "keyscan cases: the bundled example store populated with every key of length 1..2 (3) over the alphabet, KEYS p and SCAN 0 MATCH p COUNT 100000 for every pattern of length <=3 (4), "
          "both compared with the glob semantics and with each other; "
@@ -111,7 +111,7 @@ PROPS["C17"] = dict(
     exhaustive_note="the bounded alphabet space is enumerated completely")
 
 PROPS["C18"] = dict(canon="xserve", model_is_oracle=True, timeout=1200,
-    rule="single-client programs against the bundled example server through the hook: per data type (strings, hashes, lists, sets, sorted sets) all programs of length <=2 (quick) / <=3 (thorough) "
+    rule="round 2: repeated keys in MSET/MSETNX, pop counts in the allocation window (10^11..2^44) in the menus; the 17 container functions of the example store are fingerprinted by bin/extract and compared with the table Model/ExStore was transcribed from; single-client programs against the bundled example server through the hook: per data type (strings, hashes, lists, sets, sorted sets) all programs of length <=2 (quick) / <=3 (thorough) "
          "over a menu of 22..46 commands on a small key/member/value/score pool (collisions, re-adds, renames onto existing and identical keys, renamed containers used further / drained / renamed back, "
          "empty values, keys touched only by derived commands, pops beyond the end, LIMIT incl. offsets/counts at the int64 borders, REV, one- and two-sided exclusive bounds, containers of 20 and 33 members of every type with duplicates inside one SADD/ZADD/HMSET and pops larger than 16), "
          "plus random programs of 1..40 commands, one type or all mixed; replies compared with the Lean reference store (unordered replies as sorted arrays); non-trivial = every case",
@@ -120,7 +120,7 @@ PROPS["C18"] = dict(canon="xserve", model_is_oracle=True, timeout=1200,
     assumptions=["each key is used with one data type; no expiry; SET options other than NX/GET, ZADD flags, LPOP k 0/1 distinctions, SCAN cursors are outside the claimed space (DESIGN.md Appendix B)"])
 
 PROPS["C12"] = dict(canon="serve", prep=True, model_is_oracle=False, timeout=1200,
-    rule="programs run through the real framework with a handler double that replays the results of the Lean reference store (computed per program by `modeldriver prep`): "
+    rule="round 2: MSETNX/MSET naming one key twice followed by GET/STRLEN/MGET in the string programs (handler double, real string store, sequential specification); programs run through the real framework with a handler double that replays the results of the Lean reference store (computed per program by `modeldriver prep`): "
          "GETRANGE/SUBSTR for lengths 0..6 x start,end in -9..9 and ZREVRANGE for sizes 0..5 x start,stop in -7..7 with and without scores (both enumerated exhaustively, with the reply Redis "
          "defines computed independently in Go as the oracle), ZREVRANGEBYSCORE over 10x10 bounds (open, closed, infinite) x WITHSCORES x 14 LIMIT forms (small, negative, and offsets/counts at the int64 borders) on a set with a score tie (Redis oracle), "
          "counters at the 64-bit boundaries and on stored values in Go literal syntax (0x10, 0b11, 1_000 ...), MGET/HMGET with 255..1100 keys, random programs of 1..12 commands over every framework-implemented command, string programs of 1..10 commands checked reply by reply against an "
@@ -133,25 +133,25 @@ LIFE_TB = [KERNEL, TIE, "a real server on loopback ports (chosen by bind probe),
            "crypto/tls and crypto/x509 decide which handshakes verify (the model takes the verdict per credential kind as given)",
            "OS socket semantics; goroutines are counted by stack frames of the framework"]
 PROPS["C15"] = dict(timeout=1800,
-    rule="every sequence of Start/Stop/Restart of length <=4 (quick; <=3 with TLS) / <=6 (thorough), with after each call: observation (registry, ports bindable?, framework goroutines), a client on every enabled port, "
+    rule="round 2: flood:<id> (96 ECHO requests of 256 KiB, no reply read: the server's write blocks) and drain:<id> with Stop/Restart sequences, plain and TLS; every sequence of Start/Stop/Restart of length <=4 (quick; <=3 with TLS) / <=6 (thorough), with after each call: observation (registry, ports bindable?, framework goroutines), a client on every enabled port, "
          "a client that connects and idles across the next call; plus random histories of clients connecting, idling, disconnecting (close, QUIT, RST, unread) between the calls; "
          "forced schedules (hook H2): 3 scenarios x every single and every pair of 8 schedule points (quick) / every subset (thorough) delayed by 25 ms; stop storms (Stop while 4 clients keep "
          "connecting, 3 s watchdog) 40 / 400 rounds; faulty TLS clients (every handshake fault of C09) before and across Stop/Restart; non-trivial = every case",
     trusted_base=LIFE_TB, assumptions=["the interleavings of lifecycle calls with exiting accept loops / connection goroutines are forced by delaying goroutines at the verif schedule points (not enumerated by a blocking controller) and covered for every schedule by the Lifecycle transition system"])
 PROPS["C19"] = dict(timeout=1800,
-    rule="every ending mode (client close, TCP reset - also underneath TLS -, QUIT, malformed frame, half request then close, cut between CR and LF of a header (3 cut points), cut inside a bulk payload, pipelined requests left unread) and Stop with clients stalled inside a request, at pipeline positions 0..2 on the plain and the TLS port; every TLS handshake fault (plain text, garbage, abort after ClientHello, no / self-signed / "
+    rule="round 2: blocked writers (flood/drain) ended by Stop, Restart, client close and reset; every ending mode (client close, TCP reset - also underneath TLS -, QUIT, malformed frame, half request then close, cut between CR and LF of a header (3 cut points), cut inside a bulk payload, pipelined requests left unread) and Stop with clients stalled inside a request, at pipeline positions 0..2 on the plain and the TLS port; every TLS handshake fault (plain text, garbage, abort after ClientHello, no / self-signed / "
          "foreign / expired certificate, rejected name), a stalled handshake ended by the client and by Stop; Stop with several connections in flight; a second Start that fails while connections are open; churn of 150 (quick) / 10^4 (thorough) connect-disconnect cycles mixing all "
          "endings with up to 32 in flight; oracle: registry, goroutines and listening sockets at their baseline after every ending; non-trivial = every case",
     trusted_base=LIFE_TB, assumptions=["descriptor tables and TCP reset semantics are the kernel's; the model claims the control flow reaches the releases, the tie observes the effect"])
 PROPS["C09"] = dict(timeout=1800,
-    rule="complete enumeration: configurations {no rule, common-name rule, rule + password, TLS only} x credentials {none, plain text, self-signed, foreign CA, expired, right CA wrong name, name only on an intermediate, "
+    rule="round 2: CA rotation sequences over the tlsfiles configurations (setca:<main|foreign> = SetTLSCaCertFile on the running server; rotate, Restart, rotate back; rotate before the first Start; Stop/Start; a connected client across the rotation), oracle tracks the CA in force; complete enumeration: configurations {no rule, common-name rule, rule + password, TLS only} x credentials {none, plain text, self-signed, foreign CA, expired, right CA wrong name, name only on an intermediate, "
          "right CA right name, garbage, abort after ClientHello, stall} x position {first, between two good clients, while a good client is connected, all in a row}; the TLS configuration handed over ready-made and as certificate/key/CA files (tlsfiles) with a host trust store (SSL_CERT_FILE) that contains the foreign CA; harness TLS clients keep a session cache per credential (a second connection with the same credential resumes the session); oracle: faulty clients are disconnected and no command of "
          "theirs is executed (handler call counter), both listeners keep serving; non-trivial = every case",
     trusted_base=LIFE_TB, assumptions=["RequireAndVerifyClientCert verifies exactly chains to the configured CA that are currently valid (crypto/tls trusted)"])
 
 PROPS["C14"] = dict(race="always", shards=4, timeout=600,
     env={"GORACE": "log_path=$VERIF/run/racelog halt_on_error=0 exitcode=0", "VH_RACE_LOG": "$VERIF/run/racelog"},
-    rule="concurrent workloads against a real server (loopback TCP) built with -race: 2..32 clients x 30..90 rounds mixing one request of every command family "
+    rule="round 2: sweep workload - 12 rounds of 8 dialers connecting idle clients while Stop runs: Stop returns within 3 s, registry empty; concurrent workloads against a real server (loopback TCP) built with -race: 2..32 clients x 30..90 rounds mixing one request of every command family "
          "(strings, counters, keys, hashes, lists, sets, sorted sets, connection, unknown, ill-formed) with CONFIG SET/GET (incl. requirepass), AUTH, SELECT, connection churn, "
          "registry enumeration (Conns/UUID) and Restart x3 / Stop from the application thread; TLS-enabled servers with half of the clients on the TLS port (tls); lifecycle calls back to back - Start/Stop x3 on one processor, 40 Restarts in a row, Restart/Restart/Stop/Start under load (flap); 12 flag combinations; a workload that aborts the process is a failure; a report counts when one of its stacks has a framework frame; "
          "observable: the set of unordered access-site pairs reported, compared with the model's prediction computed from the regenerated access table; "
@@ -166,7 +166,7 @@ PROPS["C14"] = dict(race="always", shards=4, timeout=600,
 )
 
 PROPS["C16"] = dict(post="linhist", timeout=1800,
-    rule="concurrent histories recorded against the real connection loops (hook H1, one goroutine per connection over net.Pipe): 2..8 clients, 6..14 operations in total "
+    rule="round 2: snap workloads - whole-container reads (SMEMBERS/HKEYS/ZRANGE/LRANGE) of containers of 40 and 3000 (thorough up to 8000) entries in the example store against a writer that keeps taking one entry out and putting it back; every reply must be a state the container was in (oracle only, empty history for the checker); concurrent histories recorded against the real connection loops (hook H1, one goroutine per connection over net.Pipe): 2..8 clients, 6..14 operations in total "
          "over 1..3 keys, drawn from GET/SET/SETNX/GETSET/INCR/DECRBY/APPEND/MSETNX/DEL in 12 kind mixes (counter-only, SETNX races, MSETNX vs DEL, mixed), "
          "half against the bundled example store, half against a reference handler whose primitives are atomic with scheduling points (Gosched / 20-220us sleeps, seeded) "
          "before and after every primitive so that composed commands interleave unless something serialises them; in a third of the histories some clients connect late, while others are already executing; invocation/response order from one atomic clock; "
